@@ -1,0 +1,44 @@
+//go:build verif
+
+// This file is compiled only with the "verif" build tag. It exposes thin
+// wrappers over the internal/route package so that an external verification
+// harness (which cannot import an internal package) can drive the route parser
+// and the route tree directly. It adds no behaviour.
+
+package flamego
+
+import (
+	"net/http"
+	"regexp"
+
+	"github.com/flamego/flamego/internal/route"
+)
+
+type (
+	VerifRouteAST    = route.Route
+	VerifSegment     = route.Segment
+	VerifTree        = route.Tree
+	VerifLeaf        = route.Leaf
+	VerifParams      = route.Params
+	VerifParser      = route.Parser
+	VerifRouteHandle = route.Handler
+)
+
+// VerifNewParser wraps route.NewParser.
+func VerifNewParser() (*route.Parser, error) { return route.NewParser() }
+
+// VerifNewTree wraps route.NewTree.
+func VerifNewTree() route.Tree { return route.NewTree() }
+
+// VerifAddRoute wraps route.AddRoute.
+func VerifAddRoute(t route.Tree, r *route.Route, h route.Handler) (route.Leaf, error) {
+	return route.AddRoute(t, r, h)
+}
+
+// VerifNewHeaderMatcher wraps route.NewHeaderMatcher.
+func VerifNewHeaderMatcher(matches map[string]*regexp.Regexp) *route.HeaderMatcher {
+	return route.NewHeaderMatcher(matches)
+}
+
+// VerifNoopRouteHandler is a route.Handler that does nothing.
+func VerifNoopRouteHandler(http.ResponseWriter, *http.Request, route.Params) {}
